@@ -27,7 +27,7 @@ def run(ctx):
     return ctx.finish(
         rule="space 'step': one case per 16-bit state covering all 256 next bytes and the empty buffer (all 2^24 pairs); "
              "space 'split': content family x every length x every alignment 0..15, each with every 2-way split "
-             "(and every 3-way split up to length 48); space 'long': lengths around 2^16, 2^17, 2^20 (thorough 2^24) whole and at 8 split points; space 'lengths': EVERY length 0..9000 (thorough 70000) in one call at every alignment 0..7; space 'guard' (unoptimised build): every length 0..600 (5000) with the data ending at the last readable byte before an inaccessible page, whole and in two pieces; space 'giant': one call with 2^31-1, 2^31, 2^31+5 (thorough 2^32) bytes against 1 MiB pieces; space 'threads': two threads summing at the same time, free-running, in the unoptimised and the ThreadSanitizer build; space 'alias': the state word placed at every even offset inside summed buffers of 2..40 bytes; space 'selfimage': for all 2^16 states, 8 buffer patterns built from the state's own bytes/complements/zeros x lengths 3..9, whole and split; space 'pair' (thorough): every (state, 2-byte buffer) in one call (2^32). "
+             "(and every 3-way split up to length 48); space 'long': lengths around 2^16, 2^17, 2^20 (thorough 2^24) whole and at 8 split points; space 'lengths': EVERY length 0..9000 (thorough 70000) in one call at every alignment 0..7; space 'guard' (unoptimised build): every length 0..600 (5000) with the data ending at the last readable byte before an inaccessible page, whole and in two pieces; space 'giant': one call with 2^31-1, 2^31, 2^31+5, 2^32 (thorough also 2^32-1, 2^32+5) bytes against 1 MiB pieces; space 'threads': two threads summing at the same time, free-running, in the unoptimised and the ThreadSanitizer build; space 'alias': the state word placed at every even offset inside summed buffers of 2..40 bytes; space 'selfimage': for all 2^16 states, 8 buffer patterns built from the state's own bytes/complements/zeros x lengths 3..9, whole and split; space 'pair' (thorough): every (state, 2-byte buffer) in one call (2^32). "
              "non-trivial = distinct (state) resp. (family,length,alignment) with length>0; states = distinct (input,result) triples hashed",
         replay_fn=lambda rep: runner.replay_explorer(rep, quiet=True))
 
